@@ -43,17 +43,19 @@ def main():
                 continue
             src = os.path.join(p, "reduced") if os.path.isdir(os.path.join(p, "reduced")) else p
             files = {f: open(os.path.join(src, f)).read() for f in os.listdir(src) if f.endswith(".nano")}
-            side = "vm" if re.search(r"\(.*vm backend\)|\(vm backend\)", txt) else "native"
-            got = c04._key_of(plain, sc.sub("w" + d), files, side)
+            side = "vm" if "vm backend)" in txt else "native"
+            m = re.search(r"\|via:([a-z-]+)$", key)
+            family = m.group(1) if m else None
+            got = c04._key_of(plain, sc.sub("w" + d), files, side, family)
             if got != key:
                 # a diagnosed key is reported on whichever backend got stuck first; try the other one
                 other = "native" if side == "vm" else "vm"
-                got2 = c04._key_of(plain, sc.sub("x" + d), files, other)
+                got2 = c04._key_of(plain, sc.sub("x" + d), files, other, family)
                 if got2 != key:
                     print("witness of %r does not reproduce (%r / %r): skipped" % (key, got, got2))
                     continue
                 side = other
-            name = slug(key)
+            name = (family or "diag") + "-" + slug(re.sub(r"\|via:[a-z-]+$", "", key).replace("diagnosed-not-rejected|", ""))
             for f, t in files.items():
                 fn = name + ".nano" if f == "main.nano" else "%s__%s" % (name, f)
                 open(os.path.join(FD, fn), "w").write(t)
